@@ -171,8 +171,13 @@ var PeerTS = time.Unix(1700000000, 0)
 
 // AssocSetup builds an Association Setup Request.
 func AssocSetup(seq uint32, nodeID string) *message.AssociationSetupRequest {
+	return AssocSetupTS(seq, nodeID, 0)
+}
+
+// AssocSetupTS is AssocSetup of a peer whose Recovery Time Stamp is offset seconds newer.
+func AssocSetupTS(seq uint32, nodeID string, offset int) *message.AssociationSetupRequest {
 	return message.NewAssociationSetupRequest(seq,
-		ie.NewRecoveryTimeStamp(PeerTS),
+		ie.NewRecoveryTimeStamp(PeerTS.Add(time.Duration(offset)*time.Second)),
 		NodeIDIE(nodeID),
 	)
 }
